@@ -76,7 +76,7 @@ func KnownMeta(a []string) bool {
 	return k
 }
 
-func known(a []string) {
+func Known(a []string) {
 	e, m := KnownEmpty(a), KnownMeta(a)
 	rt.KnownFinding("C10-empty-argument", e)
 	rt.KnownFinding("C10-unescaped-metachar", m)
@@ -129,7 +129,7 @@ func CheckLine(line string, args []string, p *lang.Process) {
 // escape.CommandLine on a copy, joined by single spaces (main.argvToCmdLineStr), then parsed.
 func VerifC10CommandLine() {
 	args := Args()
-	known(args)
+	Known(args)
 	fork := newScope()
 	argv := append([]string{"cmd"}, args...)
 	escape.CommandLine(argv)
@@ -142,7 +142,7 @@ func VerifC10CommandLine() {
 // its output (minus the line end it appends) is pasted after `cmd ` and parsed.
 func VerifC10Esccli() {
 	args := Args()
-	known(args)
+	Known(args)
 	fork := newScope()
 
 	p := newScope().Process
@@ -161,3 +161,6 @@ func VerifC10Esccli() {
 	rt.Reach("escaped")
 	CheckLine("cmd "+s[:len(s)-1], args, fork.Process)
 }
+
+// VerifC10CommandLine2: same check, registered a second time with other bounds (one longer argument).
+func VerifC10CommandLine2() { VerifC10CommandLine() }
